@@ -124,13 +124,11 @@ def run (k : Kind) (f : Option Fault) (body : Option Exc) : Out :=
   let fin (d : Db) : Out := ⟨if m.2 then .escCancelled else .ret m.1, d.row, !d.conn, true, d.fired⟩
   -- finally: _db_finish_run_meta()
   if t.1.conn then
+    -- complete_run_meta() inside `try: ... except Exception ... except CancelledError`: both are logged and dropped (the
+    -- statement that was awaited when Ctrl-C arrived is performed by the sqlite thread and stays in the open transaction)
     let r := if t.1.metaSet then call f .complete m.1 t.1 else (t.1, none)
-    match r.2 with
-    | some .cancelled =>   -- `except Exception` lets it pass: it leaves the finally block and entry_point()
-      ⟨.escCancelled, r.1.row, false, false, r.1.fired⟩
-    | _ =>                 -- an Exception is logged and dropped
-      -- disconnect(): `try: commit() finally: close(); connection = None`; Exception and CancelledError are both caught
-      fin (call f .disconnect m.1 r.1).1.close
+    -- disconnect(): `try: commit() finally: close(); connection = None`; Exception and CancelledError are both caught
+    fin (call f .disconnect m.1 r.1).1.close
   else fin t.1
 
 /-! ### what the property demands -/
@@ -170,11 +168,10 @@ def violations (k : Kind) (f : Option Fault) (body : Option Exc) (o : Out) : Lis
   (if codeOk then [] else ["exit-code"]) ++ (if rowOk then [] else ["db-unfinished"]) ++
   (if o.closed then [] else ["db-left-open"]) ++ (if o.finished then [] else ["run-not-finished"])
 
-/-- the fault points at which `entry_point()` of the tree as it is breaks the property (known_findings.jsonl) -/
+/-- the fault point at which `entry_point()` of the tree as it is breaks the property (known_findings.jsonl) -/
 def Fault.bad (f : Fault) : Bool :=
   match f.call, f.mode with
   | .insert, .cancel => f.idx == 0        -- Ctrl-C at the INSERT: the row is in the transaction, its id is never kept
-  | .complete, .cancel => f.idx < 2       -- Ctrl-C inside complete_run_meta: CancelledError leaves the finally block
   | _, _ => false
 
 end Gallia.Lifecycle.DbFault
